@@ -40,14 +40,14 @@ def scenario_lines(header, events, obs):
         lines.append(e)
         lines.append("bc-state")
     mm = len(lines)
-    lines += ["mon-model-c06", "mon-model-c10", "mon-model-c06r"]
+    lines += ["mon-model-c06", "mon-model-c10", "mon-model-c06r", "mon-model-r06", "mon-model-r10"]
     lines.append("t-new %d %d %s" % (header[0], header[1], ",".join(header[2]) if header[2] else "-"))
     for e, ol in zip(events, obs):
         lines.append("t-ev " + e)
         for o in ol:
             lines.append("t-ob " + o)
     mi = len(lines)
-    lines += ["mon-c06", "mon-c10", "mon-c06r"]
+    lines += ["mon-c06", "mon-c10", "mon-c06r", "mon-r06", "mon-r10"]
     return lines, ev_idx, mm, mi
 
 
@@ -60,6 +60,8 @@ def branch_label(e, ol):
             k = "fire_" + (w[3] if w[3] != "err" else w[4])
         elif k == "raise":
             k = "raise_" + w[1]
+        elif k in ("made", "endhook", "closing"):
+            continue
         if k not in kinds:
             kinds.append(k)
     return e.split()[0] + ":" + ("+".join(kinds) if kinds else "-")
@@ -78,16 +80,33 @@ def compare_one(header, events, obs, states, got, base, ev_idx, mm, mi):
             if gs != [states[j]]:
                 out["dis"] = {"at": j, "event": e, "impl": [states[j]], "model": gs, "kind": "state"}
                 break
-    a, b, c = got[base + mm], got[base + mm + 1], got[base + mm + 2]
-    if out["dis"] is None and (a != ["ok"] or b != ["ok"] or c != ["ok"]):
-        out["monmodel"] = {"c06": a, "c10": b, "c06-routing": c}
-    c6, c10, c6r = got[base + mi], got[base + mi + 1], got[base + mi + 2]
-    if c6 != ["ok"]:
-        out["c06"] = c6
-    elif c6r != ["ok"]:
-        out["c06"] = ["routing " + c6r[0]]
-    if c10 != ["ok"]:
-        out["c10"] = c10
+    OK = (["ok"], ["skip"])  # skip: the flat monitors do not apply to a trace in which a callback ran
+    mods = got[base + mm: base + mm + 5]
+    if out["dis"] is None and any(x not in OK for x in mods):
+        out["monmodel"] = dict(zip(["c06", "c10", "c06-routing", "r06", "r10"], mods))
+    c6, c10, c6r, r6, r10 = got[base + mi: base + mi + 5]
+    if ["bad-op"] in (c6, c10, c6r, r6, r10):
+        # an observation of the implementation is outside the vocabulary of the model: not a verdict of the
+        # monitor but a difference between model and implementation
+        if out["dis"] is None:
+            odd = [o for ol in obs for o in ol if "?" in o or o.startswith(("raise other", "down err"))]
+            out["dis"] = {"at": len(events) - 1, "event": events[-1] if events else None, "impl": odd[:5], "model": None, "kind": "observation outside the model's vocabulary"}
+        odd_only = True
+    else:
+        odd_only = False
+    # the re-entrant monitors judge every trace (an unparsable observation does not stop them: they are also
+    # evaluated by `rmon_py` below when the driver could not parse the trace)
+    if not odd_only:
+        if c6 not in OK:
+            out["c06"] = c6
+        elif c6r not in OK:
+            out["c06"] = ["routing " + c6r[0]]
+        elif r6 not in OK:
+            out["c06"] = ["reentrant " + r6[0]]
+        if c10 not in OK:
+            out["c10"] = c10
+        elif r10 not in OK:
+            out["c10"] = ["reentrant " + r10[0]]
     return out
 
 
@@ -164,6 +183,8 @@ def features(events, obs):
             w = o.split()
             if w[0] == "fire":
                 f.add("fire_" + (w[3] if w[3] != "err" else w[4]))
+            elif w[0] == "hook":
+                f.add("hook_in_" + op)
             elif w[0] in ("unexpected", "raise", "lose", "down", "setTimer", "cancelTimer", "cancelConnect", "writeLost"):
                 f.add(w[0] if w[0] != "raise" else "raise_" + w[1])
         if op == "bytes" and "badOp" not in kinds and not any(k == "fire" for k in kinds):
@@ -277,7 +298,8 @@ def run_shards(ctx, shards, workers):
 F1 = "0000000c" + "00000001" + "ee" * 8
 F2 = "0000000c" + "00000002" + "ee" * 8
 ALPHABET = [
-    "make 1 1", "make 2 1", "make 2 0", "cancel 1", "cancel 2", "connOk", "connFail", "advance 1", "advance 1/2",
+    "make 1 1", "make 2 1", "make 2 0", "make 2 0 hook close", "make 1 1 hook cancel 2", "make 2 0 hook cancel 1",
+    "make 1 1 hook make 2 1", "make 2 0 hook disconnect", "cancel 1", "cancel 2", "connOk", "connFail", "advance 1", "advance 1/2",
     "bytes " + F1, "bytes " + F2, "bytes " + F1[:12], "bytes " + F1[12:], "bytes " + F2 + F1, "bytes 80000000",
     "lost", "close", "disconnect", "meta 2 9093",
 ]
